@@ -362,7 +362,7 @@ def _record_ctor(frame: _Frame, e: ast.AST):
     return names, [got[n] for n in names]
 
 
-def _ev(frame: _Frame, e: ast.AST | None, depth: int = 0):  # noqa: C901, PLR0911, PLR0912
+def _evi(frame: _Frame, e: ast.AST | None, depth: int = 0):  # noqa: C901, PLR0911, PLR0912
     """Value of a constant-foldable expression (str / int / bool / None / tuple / dict of such), else _UNK.  Names are followed through
     single-assignment locals, bound parameters, module constants and class-level tables; tiny pure helpers are evaluated."""
     if e is None or depth > 14:
@@ -379,19 +379,19 @@ def _ev(frame: _Frame, e: ast.AST | None, depth: int = 0):  # noqa: C901, PLR091
             if e.id in fi.params():
                 if e.id in frame.binds and not local_defs(fi, e.id):
                     x, fr = frame.binds[e.id]
-                    return _ev(fr, x, depth + 1)
+                    return _evi(fr, x, depth + 1)
                 return _UNK
             if local_defs(fi, e.id):
                 d = _def_of(frame, e)
                 if d is None:
                     return _UNK
-                v = _ev(frame, d[0], depth + 1)
+                v = _evi(frame, d[0], depth + 1)
                 if d[1] is None:
                     return v
                 return v[d[1]] if isinstance(v, tuple) and 0 <= d[1] < len(v) else _UNK
         r = repo.resolve_name(frame.module, e.id) if frame.module is not None else None
         if isinstance(r, tuple) and r[0] == "const":
-            return _ev(_Frame(repo, module=r[1]), r[2], depth + 1)
+            return _evi(_Frame(repo, module=r[1]), r[2], depth + 1)
         if isinstance(r, ClassInfo):
             return ("<class>", r.name)             # a class used as the key of a dispatch table
         return _UNK
@@ -415,8 +415,11 @@ def _ev(frame: _Frame, e: ast.AST | None, depth: int = 0):  # noqa: C901, PLR091
             a = c.lookup_attr(e.attr)
             if a is not None and not _instance_overrides(c, e.attr):
                 owner = next(k for k in c.mro() if e.attr in k.attrs)
-                return _ev(_Frame(repo, module=owner.module, cls=owner), a, depth + 1)
-        return _UNK
+                return _evi(_Frame(repo, module=owner.module, cls=owner), a, depth + 1)
+        # an attribute / read-only property of a small record object built by a constructor call the analysis can read (a table
+        # description kept in a module level constant, handed down as a parameter, ...)
+        base = _evi(frame, e.value, depth + 1)
+        return _obj_attr(base, e.attr, depth + 1) if isinstance(base, _ObjVal) else _UNK
     if isinstance(e, ast.JoinedStr):
         out = ""
         for p in e.values:
@@ -425,7 +428,7 @@ def _ev(frame: _Frame, e: ast.AST | None, depth: int = 0):  # noqa: C901, PLR091
                 continue
             if p.format_spec is not None or p.conversion not in (-1, 115):
                 return _UNK
-            v = _ev(frame, p.value, depth + 1)
+            v = _evi(frame, p.value, depth + 1)
             if not isinstance(v, (str, int)) or isinstance(v, bool):
                 return _UNK
             out += str(v)
@@ -434,12 +437,12 @@ def _ev(frame: _Frame, e: ast.AST | None, depth: int = 0):  # noqa: C901, PLR091
         out = []
         for x in e.elts:
             if isinstance(x, ast.Starred):
-                v = _ev(frame, x.value, depth + 1)
+                v = _evi(frame, x.value, depth + 1)
                 if not isinstance(v, tuple):
                     return _UNK
                 out += list(v)
             else:
-                v = _ev(frame, x, depth + 1)
+                v = _evi(frame, x, depth + 1)
                 if v is _UNK:
                     return _UNK
                 out.append(v)
@@ -447,22 +450,22 @@ def _ev(frame: _Frame, e: ast.AST | None, depth: int = 0):  # noqa: C901, PLR091
     if isinstance(e, ast.Dict):
         out = {}
         for k, v in zip(e.keys, e.values):
-            kv = _ev(frame, k, depth + 1) if k is not None else _UNK
-            if kv is _UNK or isinstance(kv, dict):
+            kv = _evi(frame, k, depth + 1) if k is not None else _UNK
+            if kv is _UNK or isinstance(kv, (dict, _ObjVal)) or not _hashable_key(kv):
                 return _UNK
-            out[kv] = _ev(frame, v, depth + 1)          # an unreadable member only matters when it is the one looked up
+            out[kv] = _evi(frame, v, depth + 1)          # an unreadable member only matters when it is the one looked up
         return out
     if isinstance(e, ast.Subscript):
-        base = _ev(frame, e.value, depth + 1)
+        base = _evi(frame, e.value, depth + 1)
         if isinstance(e.slice, ast.Slice) or base is _UNK:
             return _UNK
-        k = _ev(frame, e.slice, depth + 1)
+        k = _evi(frame, e.slice, depth + 1)
         try:
             return base[k] if isinstance(base, (dict, tuple, str)) and k is not _UNK else _UNK
         except (KeyError, IndexError, TypeError):
             return _UNK
     if isinstance(e, ast.BinOp):
-        l, r = _ev(frame, e.left, depth + 1), _ev(frame, e.right, depth + 1)
+        l, r = _evi(frame, e.left, depth + 1), _evi(frame, e.right, depth + 1)
         if l is _UNK or r is _UNK:
             return _UNK
         try:
@@ -478,19 +481,19 @@ def _ev(frame: _Frame, e: ast.AST | None, depth: int = 0):  # noqa: C901, PLR091
             return _UNK
         return _UNK
     if isinstance(e, ast.UnaryOp) and isinstance(e.op, ast.Not):
-        v = _ev(frame, e.operand, depth + 1)
+        v = _evi(frame, e.operand, depth + 1)
         return _UNK if v is _UNK else (not v)
     if isinstance(e, ast.BoolOp):
         v = _UNK
         for x in e.values:
-            v = _ev(frame, x, depth + 1)
+            v = _evi(frame, x, depth + 1)
             if v is _UNK:
                 return _UNK
             if bool(v) != isinstance(e.op, ast.And):
                 return v
         return v
     if isinstance(e, ast.Compare) and len(e.ops) == 1:
-        l, r = _ev(frame, e.left, depth + 1), _ev(frame, e.comparators[0], depth + 1)
+        l, r = _evi(frame, e.left, depth + 1), _evi(frame, e.comparators[0], depth + 1)
         if l is _UNK or r is _UNK:
             return _UNK
         op = e.ops[0]
@@ -507,11 +510,11 @@ def _ev(frame: _Frame, e: ast.AST | None, depth: int = 0):  # noqa: C901, PLR091
             return _UNK
         return _UNK
     if isinstance(e, ast.IfExp):
-        t = _ev(frame, e.test, depth + 1)
-        return _UNK if t is _UNK else _ev(frame, e.body if t else e.orelse, depth + 1)
+        t = _evi(frame, e.test, depth + 1)
+        return _UNK if t is _UNK else _evi(frame, e.body if t else e.orelse, depth + 1)
     if isinstance(e, (ast.GeneratorExp, ast.ListComp)) and len(e.generators) == 1 and not e.generators[0].is_async:
         g = e.generators[0]
-        it = _ev(frame, g.iter, depth + 1)
+        it = _evi(frame, g.iter, depth + 1)
         if it is _UNK and isinstance(g.target, ast.Name) and not any(isinstance(x, ast.Name) and x.id == g.target.id for y in [e.elt, *g.ifs] for x in ast.walk(y)):
             rec = _record_ctor(frame, g.iter)          # "?" for _ in row: only the number of fields matters
             if rec is not None and rec[1] is not None:
@@ -523,11 +526,11 @@ def _ev(frame: _Frame, e: ast.AST | None, depth: int = 0):  # noqa: C901, PLR091
         out = []
         for item in it:
             sub = frame.with_vals({g.target.id: item})
-            keep = [_ev(sub, c, depth + 1) for c in g.ifs]
+            keep = [_evi(sub, c, depth + 1) for c in g.ifs]
             if any(k is _UNK for k in keep):
                 return _UNK
             if all(keep):
-                v = _ev(sub, e.elt, depth + 1)
+                v = _evi(sub, e.elt, depth + 1)
                 if v is _UNK:
                     return _UNK
                 out.append(v)
@@ -541,7 +544,7 @@ def _ev_call(frame: _Frame, e: ast.Call, depth: int):  # noqa: C901, PLR0911
     f = e.func
     plain = not e.keywords and not any(isinstance(a, ast.Starred) for a in e.args)
     if isinstance(f, ast.Name) and f.id in ("len", "tuple", "list", "str", "sorted", "reversed", "range") and plain and len(e.args) == 1:
-        v = _ev(frame, e.args[0], depth + 1)
+        v = _evi(frame, e.args[0], depth + 1)
         if v is _UNK and f.id == "len":
             rec = _record_ctor(frame, e.args[0])
             return len(rec[0]) if rec is not None and rec[1] is not None else _UNK
@@ -562,16 +565,16 @@ def _ev_call(frame: _Frame, e: ast.Call, depth: int):  # noqa: C901, PLR0911
                 return _UNK
         return tuple(v) if isinstance(v, (tuple, str, dict)) else _UNK
     if isinstance(f, ast.Attribute) and f.attr == "join" and plain and len(e.args) == 1:
-        sep, items = _ev(frame, f.value, depth + 1), _ev(frame, e.args[0], depth + 1)
+        sep, items = _evi(frame, f.value, depth + 1), _evi(frame, e.args[0], depth + 1)
         if isinstance(items, dict):
             items = tuple(items)
         if isinstance(sep, str) and isinstance(items, (tuple, str)) and all(isinstance(x, str) for x in items):
             return sep.join(items)
         return _UNK
     if isinstance(f, ast.Attribute) and f.attr == "format":
-        base = _ev(frame, f.value, depth + 1)
-        args = [_ev(frame, a, depth + 1) for a in e.args]
-        kws = {k.arg: _ev(frame, k.value, depth + 1) for k in e.keywords}
+        base = _evi(frame, f.value, depth + 1)
+        args = [_evi(frame, a, depth + 1) for a in e.args]
+        kws = {k.arg: _evi(frame, k.value, depth + 1) for k in e.keywords}
         if isinstance(base, str) and None not in kws and not any(isinstance(a, ast.Starred) for a in e.args) \
                 and all(isinstance(v, (str, int)) and not isinstance(v, bool) for v in [*args, *kws.values()]):
             try:
@@ -580,23 +583,36 @@ def _ev_call(frame: _Frame, e: ast.Call, depth: int):  # noqa: C901, PLR0911
                 return _UNK
         return _UNK
     if isinstance(f, ast.Attribute) and f.attr in ("get", "keys", "values", "items") and plain:
-        base = _ev(frame, f.value, depth + 1)
+        base = _evi(frame, f.value, depth + 1)
         if isinstance(base, dict):
             if f.attr == "get" and len(e.args) in (1, 2):
-                k = _ev(frame, e.args[0], depth + 1)
-                if k is _UNK or isinstance(k, dict):
+                k = _evi(frame, e.args[0], depth + 1)
+                if k is _UNK or isinstance(k, (dict, _ObjVal)) or not _hashable_key(k):
                     return _UNK
-                return base[k] if k in base else (_ev(frame, e.args[1], depth + 1) if len(e.args) == 2 else None)
+                return base[k] if k in base else (_evi(frame, e.args[1], depth + 1) if len(e.args) == 2 else None)
             if f.attr == "keys" and not e.args:
                 return tuple(base)
             if f.attr == "values" and not e.args:
                 return tuple(base.values()) if all(v is not _UNK for v in base.values()) else _UNK
         return _UNK
     if isinstance(f, ast.Attribute) and f.attr in ("upper", "lower", "strip") and not e.args and not e.keywords:
-        base = _ev(frame, f.value, depth + 1)
+        base = _evi(frame, f.value, depth + 1)
         return getattr(base, f.attr)() if isinstance(base, str) else _UNK
+    if frame.depth() >= _MAX_FRAMES:
+        return _UNK
+    # the constructor call of a small record class of the repository: the object, described by its class and its arguments
+    if isinstance(f, (ast.Name, ast.Attribute)) and frame.module is not None \
+            and not (isinstance(f, ast.Name) and frame.fi is not None and f.id in _scope_names(frame.fi)):
+        k = frame.repo.resolve_class_expr(frame.module, f)
+        if k is not None:
+            return _ObjVal(k, e, frame) if _readable_record_class(k) else _UNK
+    # a plain method of such an object
+    if isinstance(f, ast.Attribute):
+        base = _evi(frame, f.value, depth + 1)
+        if isinstance(base, _ObjVal):
+            return _obj_method(base, frame, e, depth + 1)
     # a tiny pure helper: evaluate its body with the parameters bound to this call's arguments
-    if frame.fi is None or frame.depth() >= _MAX_FRAMES:
+    if frame.fi is None:
         return _UNK
     target = _self_target(frame, e)
     if target is None:
@@ -610,13 +626,196 @@ def _ev_call(frame: _Frame, e: ast.Call, depth: int):  # noqa: C901, PLR0911
     return _UNK if r is _FALL else r
 
 
+def _ev(frame: _Frame, e: ast.AST | None, depth: int = 0):
+    """Value of a constant-foldable expression (str / int / bool / None / tuple / dict of such), else _UNK (see _evi; the record objects
+    that _evi carries between an object expression and the attribute read from it never leave the evaluator)"""
+    return _no_objs(_evi(frame, e, depth))
+
+
+def _no_objs(v):
+    if isinstance(v, _ObjVal):
+        return _UNK
+    if isinstance(v, tuple):
+        return _UNK if any(_no_objs(x) is _UNK and x is not _UNK for x in v) else v
+    if isinstance(v, dict):
+        return {k: _no_objs(x) for k, x in v.items()}
+    return v
+
+
+def _hashable_key(v) -> bool:
+    return not isinstance(v, (_ObjVal, dict)) and (not isinstance(v, tuple) or all(_hashable_key(x) for x in v))
+
+
+class _ObjVal:
+    """an instance of a repository class: the class and the constructor call that built it (arguments read in `frame`)"""
+    __slots__ = ("cls", "call", "frame")
+    __hash__ = None          # type: ignore[assignment]
+
+    def __init__(self, cls: ClassInfo, call: ast.Call, frame: _Frame) -> None:
+        self.cls, self.call, self.frame = cls, call, frame
+
+    def __eq__(self, other) -> bool:
+        raise TypeError("identity of a record object is not modelled")
+
+
+_DYNAMIC_ATTR_HOOKS = ("__getattr__", "__getattribute__", "__setattr__", "__delattr__", "__new__", "__init_subclass__", "__bool__", "__len__",
+                       "__class_getitem__", "__set_name__", "__get__")
+
+
+def _readable_record_class(k: ClassInfo) -> bool:
+    """a class whose instances are fully described by their constructor call: a NamedTuple / dataclass without hand-written constructor,
+    or a plain class whose whole hierarchy is in the repository, without metaclass, attribute hooks or a truth value of its own"""
+    if k.node.keywords:
+        return False
+    if _record_fields(k) is not None:
+        return not any(h in k.methods for h in _DYNAMIC_ATTR_HOOKS)
+    if k.node.decorator_list:
+        return False
+    for c in k.mro():
+        if c.node.keywords or (c is not k and c.node.decorator_list) or any(h in c.methods for h in _DYNAMIC_ATTR_HOOKS):
+            return False
+        if {b for b in c.base_names if b != "object"} - {b.name for b in c.bases}:
+            return False
+    return k.lookup("__init__") is not None
+
+
+def _attr_stores(k: ClassInfo, attr: str) -> list[tuple[FuncInfo, ast.Attribute]]:
+    """stores into <anything>.attr inside the methods of the class hierarchy"""
+    return [(m, n) for c in k.mro() for m in c.methods.values() for n in ast.walk(m.node)
+            if isinstance(n, ast.Attribute) and n.attr == attr and isinstance(n.ctx, (ast.Store, ast.Del))]
+
+
+def _written_from_outside(repo, k: ClassInfo, attr: str) -> bool:
+    """some code outside the class hierarchy may store into this attribute of an instance: any store `<x>.attr = ...` that is not a store
+    into `self.attr` inside a method of an unrelated class, or a setattr / __dict__ access that names the attribute"""
+    family = set(k.mro()) | set(k.all_subclasses())
+    for m, g, n in repo.attribute_uses(attr):
+        if not isinstance(n.ctx, (ast.Store, ast.Del)):
+            continue
+        if g is not None and g.cls is not None and g.cls in family:
+            continue                                   # counted by _attr_stores
+        own = g is not None and g.cls is not None and isinstance(n.value, ast.Name) and g.params()[:1] == [n.value.id] \
+            and "staticmethod" not in g.decorator_names() and "classmethod" not in g.decorator_names() and not local_defs(g, n.value.id)
+        if not own and not _param_of_other_class(repo, m, g, n.value, family):
+            return True
+    for m in repo.modules.values():
+        for n in ast.walk(m.tree):
+            if isinstance(n, ast.Call) and chain(n.func) in ("setattr", "object.__setattr__", "delattr") and len(n.args) >= 2 \
+                    and const_value(n.args[1]) == attr:
+                return True
+    return False
+
+
+_ABSTRACT_TYPE_MODULES = ("typing", "typing_extensions", "collections.abc", "abc", "builtins")
+
+
+def _param_of_other_class(repo, m, g: FuncInfo | None, base: ast.AST, family: set) -> bool:
+    """`base` is a parameter of g that is never rebound and whose annotation names one concrete class that no member of `family` is or
+    derives from: a class of the repository outside the family, or a class imported from a module outside the repository (the family
+    has no bases outside the repository)"""
+    if g is None or not isinstance(base, ast.Name) or base.id not in g.params() or local_defs(g, base.id):
+        return False
+    a = g.node.args
+    ann = next((p_.annotation for p_ in [*a.posonlyargs, *a.args, *a.kwonlyargs] if p_.arg == base.id), None)
+    if isinstance(ann, ast.Constant) and isinstance(ann.value, str):
+        try:
+            ann = ast.parse(ann.value, mode="eval").body
+        except SyntaxError:
+            return False
+    if not isinstance(ann, ast.Name):
+        return False
+    r = repo.resolve_name(m, ann.id)
+    if isinstance(r, ClassInfo):
+        return r not in family and not (set(r.mro()) & family) and not (set(r.all_subclasses()) & family)
+    if r is None and ann.id in m.imports:
+        mod, attr = m.imports[ann.id]
+        return attr is not None and mod not in repo.modules and not mod.startswith("ipv8") and not mod.startswith(".") \
+            and mod not in _ABSTRACT_TYPE_MODULES and attr[:1].isupper()
+    return False
+
+
+def _obj_attr(obj: _ObjVal, attr: str, depth: int):  # noqa: PLR0911
+    """value of <obj>.attr: a read-only property (its getter evaluated on the object), a field of a record, an attribute that __init__
+    stores exactly once and unconditionally (and that nothing else writes), a class level constant"""
+    k, repo = obj.cls, obj.frame.repo
+    if depth > 14 or obj.frame.depth() >= _MAX_FRAMES:
+        return _UNK
+    m = k.lookup(attr)
+    if m is not None:
+        decs = [d.split(".")[-1] for d in m.decorator_names()]
+        if decs not in (["property"], ["cached_property"]) or m.is_async or any(isinstance(x, (ast.Yield, ast.YieldFrom)) for x in walk_no_nested(m.node)):
+            return _UNK
+        if k.lookup_attr(attr) is not None or _attr_stores(k, attr) or _written_from_outside(repo, k, attr):
+            return _UNK                                # shadowed by a class level assignment / replaced on the instance or the class
+        params = m.params()
+        if len(params) != 1:
+            return _UNK
+        sub = _Frame(repo, m, cls=k, binds={params[0]: (obj.call, obj.frame)}, vals={params[0]: obj}, caller=obj.frame, call=obj.call)
+        r = _ev_block(sub, m.node.body, depth + 1)
+        return _UNK if r is _FALL else r
+    rec = _record_fields(k)
+    if rec is not None:
+        got = _record_ctor(obj.frame, obj.call)
+        if got is None or got[1] is None or attr not in got[0]:
+            return _UNK
+        if not rec[1] and (_attr_stores(k, attr) or _written_from_outside(repo, k, attr)):
+            return _UNK                                # a dataclass field may be reassigned
+        x, fr = got[1][got[0].index(attr)]
+        return _evi(fr, x, depth + 1)
+    sts = _attr_stores(k, attr)
+    if _written_from_outside(repo, k, attr):
+        return _UNK
+    if not sts:
+        a = k.lookup_attr(attr)
+        if a is None:
+            return _UNK
+        owner = next(c for c in k.mro() if attr in c.attrs)
+        return _evi(_Frame(repo, module=owner.module, cls=owner), a, depth + 1)
+    init = k.lookup("__init__")
+    if init is None or len(sts) != 1 or sts[0][0] is not init or init.is_async or init.node.decorator_list:
+        return _UNK
+    n = sts[0][1]
+    st = parent(n)
+    params = init.params()
+    if not params or not (isinstance(n.value, ast.Name) and n.value.id == params[0]) or local_defs(init, params[0]) or st not in init.node.body:
+        return _UNK
+    if isinstance(st, ast.Assign) and len(st.targets) == 1 and st.targets[0] is n:
+        value = st.value
+    elif isinstance(st, ast.AnnAssign) and st.target is n and st.value is not None:
+        value = st.value
+    else:
+        return _UNK
+    if any(isinstance(x, ast.Return) for x in walk_no_nested(init.node)):
+        return _UNK
+    synth = ast.Call(func=ast.Attribute(value=obj.call, attr="__init__", ctx=ast.Load()), args=obj.call.args, keywords=obj.call.keywords)
+    sub = _bind_call(obj.frame, synth, init)
+    sub.cls = k
+    sub.vals = {params[0]: obj}
+    return _evi(sub, value, depth + 1)
+
+
+def _obj_method(obj: _ObjVal, frame: _Frame, call: ast.Call, depth: int):
+    """value a plain (undecorated, synchronous) method of a record object returns for this call"""
+    m = obj.cls.lookup(call_name(call) or "")
+    if m is None or m.node.decorator_list or m.is_async or any(isinstance(x, (ast.Yield, ast.YieldFrom)) for x in walk_no_nested(m.node)) \
+            or not m.params() or frame.depth() >= _MAX_FRAMES or depth > 14:
+        return _UNK
+    if obj.cls.lookup_attr(m.name) is not None or _attr_stores(obj.cls, m.name) or _written_from_outside(frame.repo, obj.cls, m.name):
+        return _UNK
+    sub = _bind_call(frame, call, m)
+    sub.cls = obj.cls
+    sub.vals = {m.params()[0]: obj}
+    r = _ev_block(sub, m.node.body, depth + 1)
+    return _UNK if r is _FALL else r
+
+
 def _ev_block(frame: _Frame, stmts: list, depth: int):
     """run a straight-line / if-else body on known values: the returned value, _FALL (no return reached) or _UNK"""
     for st in stmts:
         if isinstance(st, ast.Return):
-            return _ev(frame, st.value, depth) if st.value is not None else None
+            return _evi(frame, st.value, depth) if st.value is not None else None
         if isinstance(st, ast.If):
-            t = _ev(frame, st.test, depth)
+            t = _evi(frame, st.test, depth)
             if t is _UNK:
                 return _UNK
             r = _ev_block(frame, st.body if t else st.orelse, depth)
@@ -628,7 +827,7 @@ def _ev_block(frame: _Frame, stmts: list, depth: int):
                 continue
             if len(targets) != 1 or not isinstance(targets[0], ast.Name):
                 return _UNK
-            frame.vals[targets[0].id] = _ev(frame, st.value, depth)
+            frame.vals[targets[0].id] = _evi(frame, st.value, depth)
         elif isinstance(st, ast.Pass) or (isinstance(st, ast.Expr) and isinstance(st.value, ast.Constant)):
             continue
         elif isinstance(st, ast.Expr) and isinstance(st.value, ast.Call) and "logger" in (chain(st.value.func) or ""):
